@@ -209,3 +209,19 @@ ADDENDA6 = {
 for _pid, _txt in ADDENDA6.items():
     if _pid in PROPS:
         PROPS[_pid]["explanation"] += _txt
+
+ADDENDA7 = {
+    "C01": " C01.14 is_identifier_valid uses the identifier regex.",
+    "C03": " C03.9 fundamental registers come from the register table.",
+    "C05": " C05.15 polarity of the constant-of-constant branch.",
+    "C06": " C06.15 slice defaults are start 0 and step 1.",
+    "C14": " C14.8 slice defaults are start 0 and step 1.",
+    "C08": " C08.12 discovery records closed traces, refuses under the positive loop conditions, the walker gives up only without traces, one parsed subcircuit per trace.",
+    "C13": " C13.15 shape of the collision test and its disjoint flag; C13.16 fundamental registers; C13.17 polarity of the parallel-state refusal; C13.18 polarity of the relinker's changed flag and identity test.",
+    "C16": " C16.22 argument order where names tell (isinstance/getattr/named parameters).",
+    "C18": " C18.11 unitary wrapper polarity; C18.12 suffix default polarity.",
+    "C20": " C20.11 no disjunction of field comparisons; Register walk guard.",
+}
+for _pid, _txt in ADDENDA7.items():
+    if _pid in PROPS:
+        PROPS[_pid]["explanation"] += _txt
